@@ -64,6 +64,11 @@ def make_start(seed, lead, K, N, start, tag):
         return a
     if start == 'uniform':
         return np.full(lead + (K, N), 1.0 / K)
+    if start == 'near_uniform':
+        # uniform plus a jitter of 1e-5: the classes start nearly (not exactly) tied
+        r = A.rng(seed, 'near_uniform', lead, K, N, tag)
+        a = 1.0 / K + 1e-5 * r.uniform(-1, 1, size=lead + (K, N))
+        return a / a.sum(-2, keepdims=True)
     raise ValueError(start)
 
 
